@@ -113,6 +113,19 @@ def run(tier, seed, replay):
                     units.append({"ci": ci, "v": "%s/order%d" % (v, oi), "srcs": list(order)})
         records = semrun.replay(gcases, rnd, units=units, prefix=False)
         c04.report_records(ck, gcases, records)
+        # the same groups compiled file by file: the object of each file is generated right after the file was added - while
+        # the files added later are not in the group yet - and the objects are put together afterwards.  The links must not
+        # depend on what the group held when an object was generated.  (Files without scripts: the per-file entry point does
+        # not carry them.)
+        plain = [i for i, c in enumerate(gcases) if not any(f.get("wxs") for f in c["files"])]
+        keep = set(plain if tier != "quick" else rnd.sample(plain, min(len(plain), 700)))
+        iunits = [dict(u) for u in units if u["ci"] in keep]
+        if iunits:
+            irecords = semrun.replay(gcases, rnd, units=iunits, prefix=False, want_extra=["incrgroups"], incremental=True)
+            for r in irecords:
+                r["vh"] = None
+            c04.report_records(ck, gcases, irecords)
+            ck.notes.append("%d (group, insertion order) pairs also compiled file by file (per-file objects generated on arrival)" % len(iunits))
         # the dependency queries of every file of every group: exactly the resolved import / include / script targets
         # (as multisets: the property does not order them), wherever the tags stand (branches, lists, definitions)
         def walk(nodes, out):
